@@ -21,6 +21,7 @@ const (
 	KFunc
 	KArray // array value as SMT array term
 	KUnit
+	KStruct // value of a struct type declared in the package under test
 	KOpaque // unsupported value (using it fails an obligation)
 )
 
@@ -33,6 +34,8 @@ const (
 	PCellElem   // element of an array held in a local cell
 	PGlobalElem // element of a global array
 	PExt        // address of a variable of another package
+	PCellField  // field of a struct held in a local cell
+	PExtField   // field of a struct of a dependency package, reached through a pointer
 )
 
 type Pointer struct {
@@ -41,6 +44,9 @@ type Pointer struct {
 	Global *ssa.Global
 	Base   *SV // slice (PSliceElem)
 	Idx    Term
+	Field  int
+	Obj    Term        // PExtField: the pointer (reference)
+	FType  types.Type  // PExtField: field type
 }
 
 type SV struct {
@@ -56,6 +62,7 @@ type SV struct {
 	Ptr   *Pointer
 	Fn    *ssa.Function
 	Why   string // KOpaque: reason
+	Fields []SV // KStruct
 	Elems map[int64]Term // KArray held in a local cell: elements stored at literal indices
 }
 
@@ -84,6 +91,7 @@ type State struct {
 	next    Term
 	globals map[*ssa.Global]SV // mutable (guarded) globals only
 	loops   map[*ssa.BasicBlock]*loopFrame
+	defers  []deferred
 	ghosts  map[string]SV // ghost outputs of calls made so far: "callee_name"
 	calls   map[string]int
 	splits  map[int]bool
@@ -92,8 +100,14 @@ type State struct {
 	notes   []string
 }
 
+type deferred struct {
+	call *ssa.Defer
+	args []SV
+}
+
 func (s *State) clone() *State {
 	n := &State{
+		defers:  append([]deferred(nil), s.defers...),
 		pc:      append([]Term(nil), s.pc...),
 		cells:   make(map[*ssa.Alloc]SV, len(s.cells)),
 		vals:    make(map[ssa.Value]SV, len(s.vals)),
@@ -205,6 +219,12 @@ func classify(t types.Type) TClass {
 		if isNamed(u.Elem(), "math/big", "Int") {
 			return TClass{K: KScalar, Sort: SInt, What: "bigint"}
 		}
+		if n, ok := u.Elem().(*types.Named); ok {
+			if _, isStruct := n.Underlying().(*types.Struct); isStruct && n.Obj().Pkg() != nil && !strings.HasPrefix(n.Obj().Pkg().Path(), modPath) {
+				// pointer to a struct of a dependency package: an opaque reference
+				return TClass{K: KScalar, Sort: SInt, What: "iface"}
+			}
+		}
 		return TClass{K: KPtr, What: "ptr"}
 	case *types.Map:
 		return TClass{K: KScalar, Sort: SInt, What: "map"}
@@ -225,6 +245,9 @@ func classify(t types.Type) TClass {
 	case *types.Tuple:
 		return TClass{K: KTuple, What: "tuple"}
 	case *types.Struct:
+		if n, ok := t.(*types.Named); ok && n.Obj().Pkg() != nil && strings.HasPrefix(n.Obj().Pkg().Path(), modPath) {
+			return TClass{K: KStruct, What: "struct"}
+		}
 		return TClass{K: KOpaque, What: "struct"}
 	}
 	return TClass{K: KOpaque, What: t.String()}
